@@ -29,6 +29,7 @@ fn range_case(r: &Value) -> Value {
         json!({"v": v.to_string(), "contains": catch(|| rg.contains(v)).ok()})
     }).collect()).unwrap_or_default();
     let extra: Vec<Value> = r["elems"].as_array().map(|a| a.iter().map(|p| { let v = anch(p); json!({"v": v.to_string(), "contains": catch(|| rg.contains(v)).ok()}) }).collect()).unwrap_or_default();
+    let mem: Vec<Value> = r["members"].as_array().map(|a| a.iter().map(|p| { let v = anch(p); json!({"v": v.to_string(), "contains": catch(|| rg.contains(v)).ok()}) }).collect()).unwrap_or_default();
     let non: Vec<Value> = r["nonmembers"].as_array().map(|a| a.iter().map(|p| { let v = anch(p); json!({"v": v.to_string(), "contains": catch(|| rg.contains(v)).ok()}) }).collect()).unwrap_or_default();
     // term round trip, also across the wire
     let t: OwnedTerm = rg.into();
@@ -36,7 +37,7 @@ fn range_case(r: &Value) -> Value {
     let wire = erltf::encode(&t).ok().and_then(|b| erltf::decode(&b).ok()).and_then(|t2| ElixirRange::from_term(&t2));
     json!({"first": f.to_string(), "last": l.to_string(), "step": s.to_string(),
            "len": len.ok().map(|x| x.to_string()), "iter": iter.ok().map(|v| v.iter().map(|x| x.to_string()).collect::<Vec<_>>()),
-           "size_hint": hint.ok().map(|h| h.0.to_string()), "probes": probes, "elems_contains": extra, "nonmembers_contains": non,
+           "size_hint": hint.ok().map(|h| h.0.to_string()), "probes": probes, "elems_contains": extra, "nonmembers_contains": non.into_iter().chain(mem).collect::<Vec<Value>>(),
            "roundtrip": back == Some(rg), "wire_roundtrip": wire == Some(rg), "is_empty": rg.is_empty()})
 }
 
